@@ -132,7 +132,11 @@ func ConstructFamily() []Named {
 		"map[int32,map[string,T]]": func(t Type) Type { return MapOf("int32", MapOf("string", t)) },
 		"map[string,array[T][]]":   func(t Type) Type { return MapOf("string", ArrayOf(LongArrayOf(t))) },
 	}
-	for _, name := range []string{"T[][]", "T[][][]", "array[array[T]]", "array[T][]", "array[T[]]", "map[string,T[]]", "map[string,T][]",
+	shapes["T[][][][]"] = func(t Type) Type { return ArrayOf(ArrayOf(ArrayOf(ArrayOf(t)))) }
+	shapes["T[][][][][]"] = func(t Type) Type { return ArrayOf(ArrayOf(ArrayOf(ArrayOf(ArrayOf(t))))) }
+	shapes["map[string,T[][][][]]"] = func(t Type) Type { return MapOf("string", ArrayOf(ArrayOf(ArrayOf(ArrayOf(t))))) }
+	shapes["array[T][][][]"] = func(t Type) Type { return ArrayOf(ArrayOf(ArrayOf(LongArrayOf(t)))) }
+	for _, name := range []string{"T[][][][]", "T[][][][][]", "map[string,T[][][][]]", "array[T][][][]", "T[][]", "T[][][]", "array[array[T]]", "array[T][]", "array[T[]]", "map[string,T[]]", "map[string,T][]",
 		"array[map[guid,T]]", "map[int32,map[string,T]]", "map[string,array[T][]]"} {
 		mk := shapes[name]
 		add("shape-struct/"+name, st(f("alpha", mk(Simple("int32"))), f("omega", Simple("bool"))))
